@@ -105,12 +105,13 @@ def bytes_state(m, inst_id, window="any"):
         raise Unanalysable("anchor missing: type iter::Bytes")
     cur = st.cur_tok()
     vals = []
-    for f in bt["variants"][0]["fields"]:
-        if f["name"] == "start":
+    for i, f in enumerate(bt["variants"][0]["fields"]):
+        role = m.bytes_field_role(i)
+        if role == "start":
             vals.append(("ptr", ("B", (("B", 1),), 0)))
-        elif f["name"] == "end":
+        elif role == "end":
             vals.append(("ptr", ("B", (("E", 1),), 0)))
-        elif f["name"] == "cursor":
+        elif role == "cursor":
             vals.append(("ptr", ("B", ((cur, 1),), 0)))
         else:
             vals.append(("agg", ()))
